@@ -570,6 +570,47 @@ func ruleC09Mark(w *World, r *Report) {
 	const P = "C09"
 	f := w.Fn(P, "pfcpiface.(*PFCPSession).MarkSessionQer")
 	fn := w.FuncName(f)
+	// candidate selection: the running maximum starts at 0 and the label goes unconditionally to
+	// qers[sessionIdx] (sessionIdx starts at 0), so the comparison must admit a candidate whose MBR equals
+	// the running maximum — otherwise a common QER with UL MBR 0 is never selected and QER #0 is labelled
+	nsel := 0
+	for _, b := range f.Blocks {
+		for _, sc := range b.Succs {
+			x, op, y, ok := edgeFact(b, sc)
+			if !ok {
+				continue
+			}
+			phi, isPhi := y.(*ssa.Phi)
+			if !isPhi || !strings.HasSuffix(symOf(x).String(), ".ulMbr") {
+				continue
+			}
+			startsAtZero := false
+			for _, e := range phi.Edges {
+				if k, isK := constInt(e); isK && k == 0 {
+					startsAtZero = true
+				}
+			}
+			if !startsAtZero {
+				continue
+			}
+			// the selecting edge is the one whose target stores the index
+			selects := false
+			for _, ins := range sc.Instrs {
+				if _, isJump := ins.(*ssa.Jump); isJump {
+					selects = len(sc.Instrs) >= 1
+				}
+			}
+			if len(sc.Preds) != 1 {
+				continue
+			}
+			if op == token.GEQ || op == token.GTR {
+				nsel++
+				_ = selects
+				r.check(op == token.GEQ, "R09.5", fn, "the candidate comparison admits the running maximum itself (≥ with a maximum starting at 0)", w.Pos(b.Instrs[len(b.Instrs)-1].Pos()), "qer.ulMbr >= sessionMbr", "the candidate comparison is strict: a QER shared by all PDRs whose UL MBR is 0 (downlink-only or unmetered session AMBR) is never selected, and the unconditional qers[sessionIdx] with sessionIdx == 0 labels the first QER of the message as session QER")
+			}
+		}
+	}
+	r.floor("R09.5 candidate comparisons", nsel, 1)
 	n := 0
 	// every IndexAddr into s.pdrs / qers with a non-constant index: the index must be a range index (φ(-1, i+1) + 1 < len) or len-1
 	allInstrs(f, func(i ssa.Instruction) {
